@@ -213,7 +213,21 @@ fn gen_operand(t: &mut Tape, k: K, ids: &[u64], regime: Regime, ctx: &mut Ctx) -
         K::DV => {
             let mut d = DecisionVariable::default();
             d.id = *t.pick(ids);
-            d.kind = v1::decision_variable::Kind::Continuous as i32;
+            d.kind = *t.pick(&[
+                v1::decision_variable::Kind::Continuous as i32,
+                v1::decision_variable::Kind::Integer as i32,
+                v1::decision_variable::Kind::Binary as i32,
+            ]);
+            // a variable as it looks inside an instance: bound, name, and possibly a value recorded by an
+            // earlier partial evaluation -- as an operand it still stands for the variable x_id
+            if t.p(96) {
+                d.bound = Some(crate::mk::bound(-4.0, 4.0));
+                d.name = Some("x".into());
+            }
+            if t.p(96) {
+                d.substituted_value = Some(gen_value(t, regime));
+                ctx.label("dv-with-recorded-value");
+            }
             Opd::DV(d)
         }
         K::PA => {
@@ -246,6 +260,51 @@ fn gen_operand(t: &mut Tape, k: K, ids: &[u64], regime: Regime, ctx: &mut Ctx) -
             let cfg = FuncCfg { max_degree: 3, ..base };
             Opd::FN(gen_function(t, ids, &cfg, ctx))
         }
+    }
+}
+
+/// every coefficient of the operand multiplied by `s` (a power of two: exact)
+fn scale_opd(o: &Opd, s: f64) -> Opd {
+    fn lin(l: &Linear, s: f64) -> Linear {
+        let mut l = l.clone();
+        for t in l.terms.iter_mut() {
+            t.coefficient *= s;
+        }
+        l.constant *= s;
+        l
+    }
+    fn quad(q: &Quadratic, s: f64) -> Quadratic {
+        let mut q = q.clone();
+        for v in q.values.iter_mut() {
+            *v *= s;
+        }
+        q.linear = q.linear.as_ref().map(|l| lin(l, s));
+        q
+    }
+    fn poly(p: &Polynomial, s: f64) -> Polynomial {
+        let mut p = p.clone();
+        for t in p.terms.iter_mut() {
+            t.coefficient *= s;
+        }
+        p
+    }
+    use v1::function::Function as FE;
+    match o {
+        Opd::L(l) => Opd::L(lin(l, s)),
+        Opd::Q(q) => Opd::Q(quad(q, s)),
+        Opd::P(p) => Opd::P(poly(p, s)),
+        Opd::FN(f) => {
+            let mut f = f.clone();
+            f.function = match f.function.take() {
+                Some(FE::Constant(c)) => Some(FE::Constant(c * s)),
+                Some(FE::Linear(l)) => Some(FE::Linear(lin(&l, s))),
+                Some(FE::Quadratic(q)) => Some(FE::Quadratic(quad(&q, s))),
+                Some(FE::Polynomial(p)) => Some(FE::Polynomial(poly(&p, s))),
+                other => other,
+            };
+            Opd::FN(f)
+        }
+        other => other.clone(),
     }
 }
 
@@ -315,7 +374,7 @@ impl Property for C02 {
     }
     fn required_labels(&self) -> Vec<String> {
         let mut v: Vec<String> = table().iter().map(|r| format!("row={}", r.name)).collect();
-        v.extend(["mode=iterator", "mode=sum-function", "mode=sum-linear", "mode=product", "collision", "cancellation", "regime=general", "regime=dyadic"].iter().map(|s| s.to_string()));
+        v.extend(["mode=iterator", "mode=sum-function", "mode=sum-linear", "mode=product", "collision", "cancellation", "regime=general", "regime=dyadic", "dv-with-recorded-value", "tiny-scalar-times-huge-coefficients"].iter().map(|s| s.to_string()));
         v
     }
     fn cases(&self, tier: Tier) -> usize {
@@ -342,9 +401,25 @@ impl Property for C02 {
                 let tab = table();
                 let row = &tab[t.choice(tab.len())];
                 ctx.label(format!("row={}", row.name));
-                let a = gen_operand(t, row.lk, &ids, regime, ctx);
+                let scaled = t.p(40);
+                let mut a = gen_operand(t, row.lk, &ids, regime, ctx);
                 let unary = matches!(row.op, Op::Neg | Op::NegRef);
-                let b = if unary { Opd::F(0.0) } else { gen_operand(t, row.rk, &ids, regime, ctx) };
+                let mut b = if unary { Opd::F(0.0) } else { gen_operand(t, row.rk, &ids, regime, ctx) };
+                // scalar multiples with a tiny scalar and huge coefficients (2^-60 * 2^70 k/16): every result
+                // coefficient is an ordinary dyadic number, so nothing may be dropped and the result is exact
+                let poly_kind = |k: K| matches!(k, K::L | K::Q | K::P | K::FN);
+                if scaled && regime == Regime::Dyadic && row.op == Op::Mul {
+                    let s = *t.pick(&[1.0f64, -1.0, 3.0, -2.0]) * (2.0f64).powi(-60);
+                    if row.lk == K::F && poly_kind(row.rk) && a.F() != 0.0 {
+                        a = Opd::F(s);
+                        b = scale_opd(&b, (2.0f64).powi(70));
+                        ctx.label("tiny-scalar-times-huge-coefficients");
+                    } else if row.rk == K::F && poly_kind(row.lk) && b.F() != 0.0 {
+                        b = Opd::F(s);
+                        a = scale_opd(&a, (2.0f64).powi(70));
+                        ctx.label("tiny-scalar-times-huge-coefficients");
+                    }
+                }
                 ctx.fp_str(row.name);
                 ctx.fp_msg(&a.as_function());
                 ctx.fp_msg(&b.as_function());
